@@ -50,6 +50,9 @@ def cases(tier, seed):
         yield "finder", dict(k=k)
     yield "cli", dict()
     yield "wholeimage", dict()
+    # histories: one mask FILE rewritten between runs of one process; every ordered pair of HIST_REGIONS
+    for first in range(len(HIST_REGIONS)):
+        yield "history", dict(first=first)
 
 
 def header(w, seed):
@@ -255,6 +258,69 @@ def ev_wholeimage(case, ctx):
             ctx.violation("a region covering the whole image changes the catalogue: %d vs %d components (wcs %d)" % (len(db), len(da), w), "wholeimage|wcs=%d" % w)
 
 
+HIST_REGIONS = ["circle8", "polygon10", "whole", "elsewhere", "small_circle11"]
+
+
+def _hist_region(name, hdr):
+    if name == "circle8":
+        return region_for("circle", 8, hdr)
+    if name == "polygon10":
+        return region_for("polygon", 10, hdr)
+    reg = Region(maxdepth=6 if name != "small_circle11" else 11)
+    if name == "whole":
+        ra0, dec0 = wz.pix2sky(hdr, IMG[1] / 2, IMG[0] / 2)
+        reg.add_circles(np.radians(float(ra0)), np.radians(float(dec0)), np.radians(8.0))
+    elif name == "elsewhere":
+        ra0, dec0 = wz.pix2sky(hdr, IMG[1] / 2, IMG[0] / 2)
+        reg.add_circles(np.radians((float(ra0) + 180.0) % 360), np.radians(-float(dec0)), np.radians(5.0))
+    else:
+        ra0, dec0 = wz.pix2sky(hdr, 41.0, 31.0)
+        reg.add_circles(np.radians(float(ra0)), np.radians(float(dec0)), np.radians(0.2))
+    return reg
+
+
+def ev_history(case, ctx):
+    """the mask named by a path is the file's CURRENT content: rewrite one mask file between runs in one process and
+    compare every run with the run that is handed the same region as an object"""
+    d = os.environ["VERIF_SCRATCH"]
+    hdr = header(0, ctx.seed)
+    srcs = [skygauss.source_at_pixel(hdr, 10.3, 12.1, 1.0, 5.0, 3.5, 40.0), skygauss.source_at_pixel(hdr, 30.0, 40.5, 0.6, 4.5, 3.2, -20.0),
+            skygauss.source_at_pixel(hdr, 22.4, 23.2, 0.8, 4.5, 3.2, 20.0), skygauss.source_at_pixel(hdr, 4.0, IMG[1] - 5.0, 0.7, 4.2, 3.1, -30.0),
+            skygauss.source_at_pixel(hdr, 36.2, 8.0, 0.5, 6.0, 3.1, 70.0)]
+    f = os.path.join(d, "c11h.fits")
+    fm = os.path.join(d, "c11h.mim")
+    scenes.write_image(f, hdr, skygauss.render(hdr, IMG, srcs))
+    regs = [_hist_region(n, hdr) for n in HIST_REGIONS]
+
+    def run(mask):
+        cat = scenes.finder().find_sources_in_image(f, rms=0.01, cores=1, docov=False, innerclip=5, outerclip=4, mask=mask)
+        return core.jdump([{k: v for k, v in scenes.src_dict(s).items() if k != "uuid"} for s in cat]), len(cat)
+    try:
+        refs = [run(copy.deepcopy(r)) for r in regs]
+        a = case["first"]
+        for b in range(len(regs)):
+            if b == a:
+                continue
+            for step, k in enumerate((a, b, a)):
+                ctx.count("history_runs")
+                sig = "history:%s_then_%s,step=%d" % (HIST_REGIONS[a], HIST_REGIONS[b], step)
+                ctx.nontrivial(sig)
+                regs[k].save(fm)
+                got = run(fm)
+                if got != refs[k]:
+                    ctx.violation("mask file rewritten with region %r: the run finds %d components, the run handed that region as an object finds %d (%s)" % (
+                        HIST_REGIONS[k], got[1], refs[k][1], sig), "history|" + sig)
+                    ctx.outcome("history:stale")
+                else:
+                    ctx.outcome("history:n=%d" % got[1])
+    except Exception as ex:
+        ctx.violation("finder raised %r in a mask-file history (first=%s)" % (ex, HIST_REGIONS[case["first"]]), "raise|history:%d" % case["first"])
+    finally:
+        for p_ in (f, fm):
+            if os.path.exists(p_):
+                os.remove(p_)
+
+
 def ev_cli(case, ctx):
     from AegeanTools.CLI import aegean as cli
     from AegeanTools import catalogs
@@ -289,4 +355,4 @@ def ev_cli(case, ctx):
 
 
 def evaluate(clause, case, ctx):
-    dict(islands=ev_islands, finder=ev_finder, cli=ev_cli, wholeimage=ev_wholeimage)[clause](case, ctx)
+    dict(islands=ev_islands, finder=ev_finder, cli=ev_cli, wholeimage=ev_wholeimage, history=ev_history)[clause](case, ctx)
